@@ -168,14 +168,15 @@ def check_r09a(repo, rep, uni, eff, scope, prefix=''):
             if w.kind in ('subscript', 'del-subscript') and any(
                     t[0] in ('ctx', 'ctxchild') for t in v.tags) and not bad:
                 continue
-            if not bad and any(t[0] == 'selfattr' for t in v.tags) and \
-                    fi.cls is not None and w.root in ('self', 'outer_self'):
-                attr = w.chain[0][1:] if w.chain and \
-                    w.chain[0].startswith('.') else None
-                if attr and w.kind == 'mutcall' or (
-                        attr and len(w.chain) > 1):
-                    if class_attr_holds_data(uni, fi.cls, attr):
-                        bad = [('derived', 'self.' + attr)]
+            if not bad and fi.cls is not None:
+                # an attribute of self that holds an argument of the
+                # constructor (self.collection = collection): writing
+                # through it writes host data
+                for t in v.tags:
+                    if t[0] == 'selfattr' and len(t) > 1 and t[1] and \
+                            w.kind != 'attr' and class_attr_holds_data(
+                                uni, fi.cls, t[1]):
+                        bad = [('derived', 'self.' + t[1])]
             if bad:
                 hits.append((w.node, bad, '%s on %s' % (
                     w.kind, model.norm(w.target))))
@@ -451,6 +452,12 @@ def run(repo, rep):
         'result / fresh / injected context / child context / self); writes '
         'are allowed only on fresh objects and on the call\'s own context.')
     uni = unimod.Universe(repo)
+    # the injected context of every payload is a fresh child per call: the
+    # premise of R09c (decided by C04's rule R04a, repeated here)
+    from sa.rules import c04
+    rep.rule('R04a', 'see C04: every payload call runs in '
+             'context.create_child_context() created per invocation')
+    c04.check_r04a(repo, rep)
     eff = positive_control(repo, rep, uni)
     scope = r09a_scope(uni)
     nsites = check_r09a(repo, rep, uni, eff, scope)
